@@ -23,6 +23,11 @@ LinePool ==
   { MetaLine("k", "v"), MetaLine("j", "w x"), TightMeta("k", "u"), MetaLine("servings", "2"),
     [k |-> "meta", key |-> "[mode]", val |-> "steps", chunks |-> <<">> [mode]: steps">>],
     [k |-> "meta", key |-> "[foo]", val |-> "x", chunks |-> <<">> [foo]: x">>],
+    \* comments inside an entry: removed from the key and the value by both scanners; the rest of the line still belongs to it
+    [k |-> "meta", key |-> "k", val |-> "v  w", chunks |-> <<">> k: v [- c -] w">>],
+    [k |-> "meta", key |-> "j", val |-> "x", chunks |-> <<">> j [- c -]: x">>],
+    [k |-> "meta", key |-> "m", val |-> "1", chunks |-> <<">> m: 1 -- c">>],
+    [k |-> "meta", key |-> "m", val |-> "2", chunks |-> <<">> m: 2 [- c -]">>],
     [k |-> "nocolon", key |-> "", val |-> "", chunks |-> <<">> no colon here">>],
     [k |-> "wsmeta", key |-> "", val |-> "", chunks |-> <<" >> k: indented">>],
     [k |-> "midmeta", key |-> "", val |-> "", chunks |-> <<"text >> k: inline">>],
@@ -45,7 +50,7 @@ Starts(ls, i, esc, open, crlf) ==
   IF i > Len(ls) THEN <<>>
   ELSE LET l == ls[i]
            \* `-]` anywhere in the line ends an open comment (a `[-` inside a comment opens nothing)
-           closes == open /\ (l.k = "closecomment" \/ l.chunks = <<"[- block -]  ">>)
+           closes == open /\ (l.k = "closecomment" \/ l.chunks \in {<<"[- block -]  ">>, <<">> k: v [- c -] w">>, <<">> j [- c -]: x">>, <<">> m: 2 [- c -]">>})
            stillOpen == open /\ ~closes
            \* the line is lexed as tokens of its own only if we are not inside a comment; an escaped newline glues it
            own == ~open /\ ~esc
